@@ -103,6 +103,8 @@ class Crate:
         self.free_fns = {}  # name -> FnInfo
         self.impls = []     # (trait name or None, self type, file, line, attrs)
         self.files = []     # [(path, modkey)]
+        self.unsupported_types = {}   # name -> reason (fields outside the supported types)
+        self.rejected_items = {}      # description -> reason (items that could not even be declared)
         self.file_order = []
         self.raw_items = []
         self.load(os.path.join(root, 'src', 'lib.rs'), 'Lib')
@@ -156,20 +158,48 @@ class Crate:
         for n in ('Option', 'Result'):
             if n in self.structs or n in self.enums:
                 raise Unsupported("crate redefines %s" % n)
+        # types whose fields are outside the supported types are left out (with everything that uses them)
+        changed = True
+        while changed:
+            changed = False
+            for n, it in list(self.structs.items()) + list(self.enums.items()):
+                if n in self.unsupported_types:
+                    continue
+                tps = [p for p, _ in it.params]
+                try:
+                    if it.kind == 'struct':
+                        for _, t in it.fields:
+                            self.conv_type(t, tps, it.file)
+                    else:
+                        for v in it.variants:
+                            for t in v.payload:
+                                self.conv_type(t, tps, it.file)
+                except Unsupported as u:
+                    self.unsupported_types[n] = str(u)
+                    changed = True
         for path, key, items in self.raw_items:
             for it in items:
                 if it.kind == 'const':
                     self.dup(it.name, path, it.line)
-                    ty = self.conv_type(it.ty, {}, path)
-                    self.consts[it.name] = (ty, self.const_eval(it.value, path), key)
+                    try:
+                        ty = self.conv_type(it.ty, {}, path)
+                        self.consts[it.name] = (ty, self.const_eval(it.value, path), key)
+                    except Unsupported as u:
+                        self.rejected_items['const ' + it.name] = str(u)
         for path, key, items in self.raw_items:
             for it in items:
                 if it.kind == 'fn':
                     self.dup(it.name, path, it.line)
-                    fi = self.mk_fn(it, None, None, [], path, key)
-                    self.free_fns[it.name] = fi
+                    try:
+                        fi = self.mk_fn(it, None, None, [], path, key)
+                        self.free_fns[it.name] = fi
+                    except Unsupported as u:
+                        self.rejected_items['fn ' + it.name] = str(u)
                 elif it.kind == 'impl':
-                    self.collect_impl(it, path, key)
+                    try:
+                        self.collect_impl(it, path, key)
+                    except Unsupported as u:
+                        self.rejected_items['impl at %s:%s' % (os.path.relpath(path, self.root), it.line)] = str(u)
 
     def const_eval(self, e, path):
         if e.kind == 'int':
@@ -216,6 +246,8 @@ class Crate:
                 return T_CHAR
             if name in ('Option', 'Result'):
                 return ('adt', name, args)
+            if name in self.unsupported_types:
+                raise Unsupported("type `%s` is outside the supported subset (%s)" % (name, self.unsupported_types[name]), path, ty.line)
             if name in self.structs or name in self.enums:
                 return ('adt', name, args)
         raise Unsupported("unknown or unsupported type `%s`" % '::'.join(ty.segs), path, ty.line)
@@ -251,7 +283,11 @@ class Crate:
         self.impls.append((trait, self_ty, path, it.line, it.attrs))
         bounds = self.bounds_of(it.params, path, it.line)
         for f in it.fns:
-            fi = self.mk_fn(f, self_ty, trait, bounds, path, key)
+            try:
+                fi = self.mk_fn(f, self_ty, trait, bounds, path, key)
+            except Unsupported as u:
+                self.rejected_items['%s::%s' % (base[1], f.name)] = str(u)
+                continue
             lst = self.methods.setdefault((base[1], nrefs, f.name), [])
             if trait is None:
                 lst.insert(0, fi)
